@@ -121,7 +121,8 @@ func verifC22Range(lo, hi int) int {
 	return vRange(lo, hi)
 }
 
-func verifC22Pipeline(algorithm Algorithm, symbolic bool) {
+func verifC22Pipeline(algorithm Algorithm) {
+	big := vParam("big", 0)
 	maxMsgs := vParam("msgs", 2)
 	maxLen := vParam("len", 3)
 	w := &verifC22Wire{small: vParam("small", 4), budget: vParam("budget", 1)}
@@ -159,7 +160,8 @@ func verifC22Pipeline(algorithm Algorithm, symbolic bool) {
 			vCover("several-per-flush")
 		}
 		for decoded < len(sent) {
-			var got verifC22Msg
+			// the receiving message may hold earlier content (messages are reused)
+			got := verifC22Msg{payload: []byte{0xAA, 0x55}}
 			derr := dec.Decode(&got)
 			vAssert(!w.starved, "after a flush everything written so far decodes without further data")
 			vAssert(derr == nil, "a flushed message decodes without error")
@@ -174,13 +176,20 @@ func verifC22Pipeline(algorithm Algorithm, symbolic bool) {
 	for i := 0; i < count; i++ {
 		n := verifC22Range(0, maxLen)
 		var payload []byte
-		if symbolic {
-			payload = vBytes(n)
-		} else {
+		if big > 0 && vBool() {
+			// fixed content (block coding depends on it): a short and a long
+			// message with repetitions, different for every message
+			vCover("big")
+			n = 40
+			if vBool() {
+				n = big
+			}
 			payload = make([]byte, n)
 			for j := range payload {
-				payload[j] = byte(17*i + 5*j + 1)
+				payload[j] = byte(17*i + 5*(j%23) + j/97 + 1)
 			}
+		} else {
+			payload = vBytes(n)
 		}
 		if n == 0 {
 			vCover("empty")
@@ -201,11 +210,17 @@ func verifC22Pipeline(algorithm Algorithm, symbolic bool) {
 }
 
 func VerifC22PipelineNone() {
-	verifC22Pipeline(Algorithm_AlgorithmNone, true)
+	verifC22Pipeline(Algorithm_AlgorithmNone)
 }
 
 func VerifC22PipelineDeflate() {
-	verifC22Pipeline(Algorithm_AlgorithmDeflate, true)
+	verifC22Pipeline(Algorithm_AlgorithmDeflate)
+}
+
+// VerifC22PipelineDeflateBig: parameter "big" > 0 adds fixed-content messages
+// of 40 and <big> bytes.
+func VerifC22PipelineDeflateBig() {
+	verifC22Pipeline(Algorithm_AlgorithmDeflate)
 }
 
 // ---------------------------------------------------------------- flush order
